@@ -74,6 +74,28 @@ func (m *mgrFacts) stateStores() []stateStore {
 				}
 			}
 		}
+		if name == "" {
+			// a state chosen into a variable first: every way it comes about is one of the defined states
+			allValid := true
+			outs := engine.ValueOutcomes(engine.LocalValue(st.Val), st.Block())
+			for _, o := range outs {
+				k, ok := engine.ConstInt(o.V)
+				valid := false
+				if ok {
+					for _, v := range m.states {
+						if v == k {
+							valid = true
+						}
+					}
+				}
+				if !valid {
+					allValid = false
+				}
+			}
+			if allValid && len(outs) > 1 {
+				name = "(one of the defined states)"
+			}
+		}
 		out = append(out, stateStore{st, name})
 	}
 	return out
